@@ -41,7 +41,9 @@ theorem inv_step (c : Cfg) (st st' : State) (l : Label) (hi : Inv c st) (hs : st
         · simp only [emitted, hnd, Bool.false_eq_true, if_false, List.append_nil, List.flatMap_append,
             List.flatMap_cons, List.flatMap_nil] at hfifo ⊢
           exact hfifo
-      · obtain rfl := Option.some.inj hs
+      · split at hs
+        · simp at hs
+        obtain rfl := Option.some.inj hs
         refine ⟨?_, ?_, hrecv, heos⟩
         · intro e he
           simp only [List.mem_append, List.mem_singleton] at he
